@@ -391,44 +391,51 @@ func (st *State) doReturn(fr *Frame, res Value) {
 
 // certainPanic records a failure that happens on every input following this path.
 func (st *State) certainPanic(msg string) {
+	if st.guard != nil && st.guard != st.b.True {
+		// inside one alternative of a guarded value: the panic happens exactly when the guard holds
+		g := st.guard
+		st.guard = nil
+		st.panicIf(g, msg)
+		st.guard = g
+		panic(altDropped{})
+	}
 	if st.spec != nil {
 		panic(specAbort{"panic inside speculation"})
 	}
-	st.flushObligs()
 	if st.inst.ExpectPanic != "" && strings.Contains(msg, st.inst.ExpectPanic) {
 		st.res.CoverHit["expected-panic"] = true
+		st.flushObligs()
 		panic(pathEnd{"expected panic"})
 	}
-	cf := CertainFailure{Kind: "panic", Msg: msg, Pos: st.where(), Model: st.model}
-	if st.model == nil {
-		if ok, m := st.feasible(st.b.True); ok && m != nil {
-			cf.Model = m
-		}
-	}
-	if cf.Model != nil {
-		cf.Inputs = map[string]uint64{}
-		ev := term.NewEvaluator(cf.Model)
-		for _, iv := range st.inputVars {
-			cf.Inputs[iv.ID] = ev.Eval(iv.Node)
-		}
-	}
-	st.res.CertainFail = append(st.res.CertainFail, cf)
+	st.addOblig("panic", msg, st.b.False)
+	st.flushObligs()
 	panic(pathEnd{"panic"})
 }
 
 // panicIf adds the obligation that cond never holds here and continues on the other side.
 func (st *State) panicIf(cond *term.Node, msg string) {
+	if st.guard != nil {
+		cond = st.b.BAnd(st.guard, cond)
+	}
 	if cond == st.b.False {
 		return
 	}
 	if cond == st.b.True {
+		g := st.guard
+		st.guard = nil
+		defer func() { st.guard = g }()
 		st.certainPanic(msg)
 	}
 	// Is the non-panicking side feasible at all?
+	// The obligation pc => !cond is recorded; when it holds, !cond is implied by the path condition,
+	// so it is not added to it (that would only fragment VC batches). When the current model happens
+	// to sit on the panicking side we move to a model of the other side.
 	okSide := st.b.BNot(cond)
+	g0 := st.guard
+	st.guard = nil
+	defer func() { st.guard = g0 }()
 	if v, ok := st.evalBool(okSide); ok && v {
 		st.addOblig("panic", msg, okSide)
-		st.pushPC(okSide)
 		return
 	}
 	feas, m := st.feasible(okSide)
@@ -510,10 +517,11 @@ type cellKey struct {
 }
 
 type armResult struct {
-	writes map[cellKey]Value
-	order  []cellKey
-	phis   []Value
-	mapW   bool
+	writes  map[cellKey]Value
+	order   []cellKey
+	phis    []Value
+	mapW    bool
+	assumes []*term.Node // conditions added to the path condition inside the arm
 }
 
 func (st *State) runArm(fr *Frame, succ *ssa.BasicBlock, join *ssa.BasicBlock, guard *term.Node, m *term.Model) (res *armResult, ok bool) {
@@ -569,6 +577,7 @@ func (st *State) runArm(fr *Frame, succ *ssa.BasicBlock, join *ssa.BasicBlock, g
 		n = st.pc.n + 1
 	}
 	st.pc = &pcList{cond: guard, prev: st.pc, n: n}
+	armBase := st.pc
 	st.setModel(m)
 	st.jump(fr, succ)
 	st.run()
@@ -577,6 +586,9 @@ func (st *State) runArm(fr *Frame, succ *ssa.BasicBlock, join *ssa.BasicBlock, g
 	}
 	// collect effects
 	res = &armResult{writes: map[cellKey]Value{}}
+	for q := st.pc; q != nil && q != armBase; q = q.prev {
+		res.assumes = append(res.assumes, q.cond)
+	}
 	for i := mark; i < len(st.trail); i++ {
 		e := &st.trail[i]
 		if e.obj == nil {
@@ -675,6 +687,21 @@ func (st *State) tryMerge(fr *Frame, c *term.Node, mT, mF *term.Model) bool {
 	}
 	for _, u := range upds {
 		st.write(u.k.obj, u.k.off, u.v)
+	}
+	// assumptions made inside the arms survive as implications
+	for i := len(ra.assumes) - 1; i >= 0; i-- {
+		st.pushPC(st.b.Implies(c, ra.assumes[i]))
+	}
+	for i := len(rb.assumes) - 1; i >= 0; i-- {
+		st.pushPC(st.b.Implies(notc, rb.assumes[i]))
+	}
+	if len(ra.assumes)+len(rb.assumes) > 0 {
+		// the current model need not satisfy the new implications
+		ok, m := st.feasible(st.b.True)
+		if !ok {
+			panic(pathEnd{"infeasible"})
+		}
+		st.setModel(m)
 	}
 	fr.prev = fr.block
 	fr.block = jb
